@@ -22,3 +22,8 @@ impl Watcher for RecommendedWatcher { fn watch(&mut self, path: &Path, _m: Recur
 impl Drop for RecommendedWatcher { fn drop(&mut self) { if let Ok(mut r) = REG.try_lock() { r[self.id] = None; } } }
 pub fn stub_inject(id: usize, ev: Event) { let h = REG.lock().unwrap()[id].take(); if let Some(mut h) = h { h.handle_event(Ok(ev)); let mut r = REG.lock().unwrap(); if r[id].is_none() { r[id] = Some(h); } } }
 pub fn stub_reset() { REG.lock().unwrap().clear(); }
+
+/// `notify::event::*` paths, as in the real crate.
+pub mod event {
+    pub use super::{AccessKind, CreateKind, Event, EventKind, ModifyKind, RemoveKind, RenameMode};
+}
